@@ -16,6 +16,7 @@ import time
 from concurrent.futures import ThreadPoolExecutor
 
 PY = "/venv/bin/python"
+FAST = False
 HERE = os.path.dirname(os.path.dirname(os.path.abspath(__file__)))
 
 
@@ -39,7 +40,7 @@ def one(name, tier, workers, seed, commit):
         os.makedirs(out, exist_ok=True)
         t0 = time.time()
         r = sh([PY, "check.py", prop, "--tier", tier, "--workers", str(workers)], cwd=HERE,
-               env=dict(os.environ, VERIF_REPO=wt, VERIF_OUT=out, VERIF_SEED=str(seed)))
+               env=dict(os.environ, VERIF_REPO=wt, VERIF_OUT=out, VERIF_SEED=str(seed), **({"VERIF_FAST_FAIL": "1"} if FAST else {})))
         run = {"cmd": f"VERIF_REPO=<patched worktree> VERIF_SEED={seed} check.py {prop} --tier {tier}",
                "rc": r.returncode, "wall_s": round(time.time() - t0, 1),
                "signatures": [l.strip() for l in r.stdout.splitlines() if "signature:" in l][:8],
@@ -63,7 +64,10 @@ def main():
     ap.add_argument("--seed", default="1")
     ap.add_argument("--only")
     ap.add_argument("--missed", action="store_true")
+    ap.add_argument("--fast", action="store_true", help="detection only: no shrinking, stop at the first failure")
     a = ap.parse_args()
+    global FAST
+    FAST = a.fast
     names = sorted(os.path.basename(os.path.dirname(p)) for p in glob.glob(os.path.join(HERE, "seeded", "*", "meta.json")))
     if a.only:
         want = set(a.only.split(","))
